@@ -442,6 +442,134 @@ class Module:
             self.out.append(f"@[pygen] def {cls}.{a.lstrip('_')}_stored ({binders} : Py.Kind) : Except PyErr Py.Kind := {tr(found[a])}")
             self.out.append("")
 
+    # -- T7: the order of effects of a mutating method ---------------------------------------------------------
+    def translate_effect_traces(self, cls: str, name: str, lean_name: str) -> None:
+        """T7: the sequence of effects a mutating method performs on `self`, in program order, as a list of `Py.Eff`.
+
+        Every statement must fall into one of the recognised classes (anything else is Untranslatable):
+          check        `if …: raise`, an if/elif/else ladder of local assignments ending in `raise`, a local bound to arg_to_uint(…)
+          fail         an unconditional `raise`
+          warn         `warnings.warn(…)`
+          local        assignment to a local name from an expression without calls on self (offset arithmetic, reshape, …)
+          mergeTiming  local bound to `….​_append_timestamps(…)` / `….​_append_timing(…)`   (pure, may raise)
+          checkWritable `if not self._data.flags.writeable: raise …`
+          resize       `self.capacity = …` / `self._data….resize(…)`
+          callGrow     `self._increase_capacity(…)`
+          copy         `self._data[…] = …`
+          setTiming / setCount / setStart / adopt / adoptAlias / mergeProps   the mutations of observable state
+          loopBegin … loopEnd            a `for` loop
+          ifNeedGrowBegin … ifNeedGrowEnd  `if <size> > len(self._data)` / `> self.capacity`: the growth branch
+          branchBegin l … branchElse … branchEnd   an `if <parameter>:` with effects in its branches (e.g. `if copy:`)"""
+        fn = self.find_func(cls, name)
+
+        def fail(msg, node):
+            raise Untranslatable(f"{cls}.{name}: {msg}", node, self.path)
+
+        def self_attr(t, attr=None):
+            return isinstance(t, ast.Attribute) and isinstance(t.value, ast.Name) and t.value.id == "self" and (attr is None or t.attr == attr)
+
+        def only_locals_or_raise(body):
+            kinds = set()
+            for st in body:
+                if isinstance(st, ast.Raise):
+                    kinds.add("raise")
+                elif isinstance(st, (ast.Assign, ast.AnnAssign)) and isinstance(st.targets[0] if isinstance(st, ast.Assign) else st.target, ast.Name):
+                    kinds.add("local")
+                elif isinstance(st, ast.If):
+                    kinds |= only_locals_or_raise(st.body) | only_locals_or_raise(st.orelse)
+                elif isinstance(st, ast.Pass):
+                    pass
+                else:
+                    kinds.add("other")
+            return kinds
+
+        def stmt(st) -> list[str]:
+            if isinstance(st, ast.Expr) and isinstance(st.value, ast.Constant):
+                return []
+            if isinstance(st, ast.Pass):
+                return []
+            if isinstance(st, ast.Raise):
+                return ["fail"]
+            if isinstance(st, ast.AnnAssign) and st.value is None:
+                return []
+            if isinstance(st, ast.Expr) and isinstance(st.value, ast.Call):
+                f = ast.unparse(st.value.func)
+                if f == "warnings.warn":
+                    return ["warn"]
+                if f == "self._increase_capacity":
+                    return ["callGrow"]
+                if f == "self._set_timing":
+                    return ["setTiming"]
+                if f == "self._extended_properties._merge":
+                    return ["mergeProps"]
+                if f.startswith("self._data") and f.endswith(".resize"):
+                    return ["resize"]
+                if f in ("validate_unsupported_arg",):
+                    return ["check"]
+                fail(f"unclassified call statement {f}", st)
+            if isinstance(st, (ast.Assign, ast.AugAssign, ast.AnnAssign)):
+                target = st.targets[0] if isinstance(st, ast.Assign) else st.target
+                if isinstance(st, ast.Assign) and len(st.targets) != 1:
+                    fail("multiple assignment targets", st)
+                src = ast.unparse(st.value)
+                if isinstance(target, ast.Name):
+                    if "._append_timestamps(" in src or "._append_timing(" in src:
+                        return ["mergeTiming"]
+                    if src.startswith("arg_to_uint(") or src.startswith("arg_to_int("):
+                        return ["check"]
+                    if "self._" in src and "(" in src.replace("len(", "").replace("sum(", "").replace("range(", "") and "reshape" not in src:
+                        fail(f"local bound to a call on self: {src}", st)
+                    return ["local"]
+                if isinstance(target, ast.Subscript) and self_attr(target.value, "_data"):
+                    return ["copy"]
+                if self_attr(target, "capacity"):
+                    return ["resize"]
+                if self_attr(target, "_timing"):
+                    return ["setTiming"]
+                if self_attr(target, "_sample_count"):
+                    return ["setCount"]
+                if self_attr(target, "_start_index"):
+                    return ["setStart"]
+                if self_attr(target, "_data"):
+                    return ["adopt"]
+                if self_attr(target, "_data_1d"):
+                    return ["adoptAlias"]
+                fail(f"unclassified assignment target {ast.unparse(target)}", st)
+            if isinstance(st, ast.For):
+                if st.orelse:
+                    fail("for/else", st)
+                return ["loopBegin"] + block(st.body) + ["loopEnd"]
+            if isinstance(st, ast.If):
+                cond = ast.unparse(st.test)
+                be, oe = block(st.body), block(st.orelse)
+                pure = {"check", "fail", "warn", "local", "mergeTiming", "checkWritable"}
+                if set(be) | set(oe) <= pure:
+                    # a conditional that changes nothing: at most it raises
+                    if "flags.writeable" in cond and "fail" in be:
+                        return ["checkWritable"]
+                    both = be + oe
+                    if "mergeTiming" in both:
+                        return ["mergeTiming"]
+                    if any(e in ("check", "fail", "checkWritable") for e in both):
+                        return ["check"]
+                    return ["warn"] if "warn" in both else ["local"]
+                if ("len(self._data)" in cond or "self.capacity" in cond) and not st.orelse:
+                    return ["ifNeedGrowBegin"] + be + ["ifNeedGrowEnd"]
+                if isinstance(st.test, ast.Name):
+                    return ["branchBegin"] + be + ["branchElse"] + oe + ["branchEnd"]
+                fail(f"unclassified if: {cond}", st)
+            fail(f"unclassified statement {type(st).__name__}", st)
+
+        def block(ss) -> list[str]:
+            out: list[str] = []
+            for st in ss:
+                out += stmt(st)
+            return out
+        effs = block(fn.body)
+        self.out.append(f"/-- generated from `{cls}.{name}`: the effects on `self`, in program order -/")
+        self.out.append(f"@[pygen] def {lean_name} : List Py.Eff := [" + ", ".join("." + e for e in effs) + "]")
+        self.out.append("")
+
     # -- T3: accumulator loops over a sequence of integers ---------------------------------------------------
     def translate_scan_function(self, name: str, lean_name: str, seq_param: str, enum_cls: str | None = None,
                                 helpers: dict[str, str] | None = None) -> None:
@@ -608,7 +736,7 @@ class Module:
     def render(self, header_imports: list[str]) -> str:
         lines = ["-- GENERATED by tools/pylean from " + self.path.split("/src/")[-1] + " — do not edit",
                  "import NiVerif.Py.Int", "import NiVerif.Py.Err", "import NiVerif.Py.Attr",
-                 "import NiVerif.Py.Time", "import NiVerif.Py.Render", "import NiVerif.Py.Float"]
+                 "import NiVerif.Py.Time", "import NiVerif.Py.Render", "import NiVerif.Py.Float", "import NiVerif.Py.Effects"]
         lines += [f"import {i}" for i in header_imports]
         lines += ["set_option linter.unusedVariables false", "", f"namespace {self.ns}", ""]
         for m in self.imports:
